@@ -37,8 +37,43 @@ def replay(ctx, module, behaviours, what, key, vh_args=(), count=True):
     return done, mism, extra
 
 
+def greedy_cover(items, keys_of):
+    """Deterministic selection for the quick tier: the fewest items (greedy set cover, ties by position) whose
+    boundary keys cover the keys of ALL items - so no (state class x call kind x result x boundary class)
+    combination of the complete cover is left out, whatever the seed.  Returns (indices, number of keys)."""
+    ks = [keys_of(b) for b in items]
+    todo = set().union(*ks) if ks else set()
+    total = len(todo)
+    sel = []
+    while todo:
+        i = max(range(len(items)), key=lambda i: (len(ks[i] & todo), -i))
+        sel.append(i)
+        todo -= ks[i]
+    return sel, total
+
+
+def sgn(x):
+    return (x > 0) - (x < 0)
+
+
 # ---------------------------------------------------------------------------------------------
 # C40 access controller
+def c40_keys(b):
+    s0 = b["path"][-1] if b["path"] else b["init"]
+    st = s0["st"]
+    if st["rRec"]["kind"] != "timed":
+        tcls = "-"
+    else:
+        d = st["rRec"]["after"] - s0["now"]
+        tcls = ("<0" if d < 0 else str(d) if d <= 1 else ">1", s0["now"] % 2)
+    base = (st["locked"], st["rRec"]["kind"], tcls, st["pRec"]["delay"] != -2, st["pWd"], st["rWd"], st["asset"], st["delay"])
+    ks = set()
+    for f in b["fan"]:
+        ks.add((f["m"], f["res"], min(len(f["c"]), 2), f["narrow"]) + base)
+        ks.add(("prop", f["m"], f["res"], f["prop"] == st["rRec"]["prop"], f["prop"] == st["pRec"]))
+    return ks
+
+
 def C40(ctx):
     q = ctx.quick
     core.build_harness(BIN)
@@ -81,10 +116,18 @@ def C40(ctx):
     narrow_states = [b for b in cover if any(f["narrow"] for f in b["fan"])]
     if not narrow_states:
         raise ToolError("vacuous cover: no timed confirmation by a caller without the recovery role")
+    n_keys = 0
     if q:
-        rest = [b for b in cover if b not in narrow_states[:3]]
+        # full product (abstract state class: locked x recovery kind x distance to the timer -1/0/1 and half-minute phase x
+        # pending proposals / withdrawals x asset x delay) x (method x result x caller size x narrow) and (method x result x
+        # proposal equal to the pending ones) is kept; only the seeded bulk on top of it is a sample
+        idx, n_keys = greedy_cover(cover, c40_keys)
+        chosen = set(idx)
+        rest = [i for i in range(len(cover)) if i not in chosen]
         ctx.rng.shuffle(rest)
-        sel = narrow_states[:3] + rest[:90]
+        sel = [cover[i] for i in idx + rest[:15]]
+        if not any(f["narrow"] for b in sel for f in b["fan"]):
+            raise ToolError("quick selection lost the narrow-reading calls")
     else:
         sel = cover
     ctx.sample({"cover_state": {"path": [{k: v for k, v in s.items() if k != "st"} for s in sel[0]["path"]],
@@ -132,12 +175,30 @@ def C40(ctx):
                     "seeded random behaviours of 20 calls; every step executed as a real transaction on a LedgerSimulator with proofs of "
                     "exactly the caller's badges, comparing result class, decoded controller state, the three role rules and the vault "
                     "balance; distinct = distinct call sequences" % ("callers with <= 2 badges" if q else "all 16 callers",
-                                                                     "90 sampled states + 3 with a narrow-reading call" if q else "all states")}
+                                                                     "the %d states of a greedy cover of all %d (state class x method x result x caller size / proposal match) "
+                                                                     "combinations + 15 seeded states" % (len(sel) - 15, n_keys) if q else "all states")}
 
 
 # ---------------------------------------------------------------------------------------------
 # C44 consensus clock and rounds
 BASE_MIN_POS = 28000000   # whole minutes added to every time of the run far from zero (year 2023)
+
+
+def c44_keys(b):
+    s = b["path"][-1]["st"] if b["path"] else b["init"]
+    ks = {("S", sgn(s["ms"]), s["ms"] % 60000 == 0, s["ms"] % 1000 == 0, sgn(s["minute"]), min(s["epoch"], 2), min(s["round"], 5),
+           b["gets"]["Minute"] == b["gets"]["Second"])}
+    for f in b["fan"]:
+        r, t = f["r"], f["t"]
+        d = t - s["effStart"]
+        dc = "<T" if d < 60000 else "=T" if d == 60000 else "<1.1T" if d < 66000 else "=1.1T" if d == 66000 else ">1.1T"
+        rr = sgn(r - s["round"]) * min(abs(r - s["round"]), 2)
+        ra = min(max(r, 1), 5)
+        common = (f["res"], f["change"], f["change"] and f["st"]["effStart"] == t)
+        ks.add(("R",) + common + (rr, ra, dc))
+        ks.add(("T",) + common + (sgn(t - s["ms"]), sgn(t // 60000 - s["minute"]), sgn(t), t % 60000 == 0, t % 1000 == 0, dc))
+        ks.add(("E",) + common + (min(s["epoch"], 2), ra, dc, sgn(t - s["ms"])))
+    return ks
 
 
 def C44(ctx):
@@ -176,10 +237,22 @@ def C44(ctx):
         raise ToolError("vacuous cover: both ways of setting the effective epoch start must occur")
     if not any(b["gets"]["Minute"] < 0 for b in neg) or not any(any(qq["exp"] for qq in b["queries"]) for b in pos):
         raise ToolError("vacuous cover: negative clock / true comparison missing")
+    n_keys = n_cov = 0
     if q:
-        ctx.rng.shuffle(pos)
-        ctx.rng.shuffle(neg)
-        pos, neg = pos[:40], neg[:40]
+        # kept in full: (result x epoch change x way of setting the effective start) x (round below / equal / next / beyond
+        # the current one, round at min / max rounds +- 1) x (epoch duration <, =, just above target, = and > 1.1 target) x
+        # (timestamp <, =, > current; minute before / same / next; sign of the time; on a minute / second boundary) and
+        # the clock-state classes; only the seeded bulk on top is a sample
+        sel = []
+        for beh in (pos, neg):
+            idx, nk = greedy_cover(beh, c44_keys)
+            n_keys += nk
+            n_cov += len(idx)
+            chosen = set(idx)
+            rest = [i for i in range(len(beh)) if i not in chosen]
+            ctx.rng.shuffle(rest)
+            sel.append([beh[i] for i in idx + rest[:8]])
+        pos, neg = sel
     ctx.sample({"cover_state": {"init": neg[0]["init"], "path": neg[0]["path"], "gets": neg[0]["gets"], "one_query": neg[0]["queries"][0],
                                 "fan_calls": len(neg[0]["fan"]), "one_fan_call": neg[0]["fan"][0]}})
     ctx.sample({"simulated_behaviour_calls": [[s["r"], s["t"], s["res"], s["change"]] for s in sim[0]["path"]]})
@@ -211,7 +284,8 @@ def C44(ctx):
                     "sequences of 15 calls over 10 minutes. Calls are real next-round system transactions on a LedgerSimulator whose "
                     "genesis has that epoch change condition and initial time; compared: result class, epoch / round / milli / minute "
                     "clock / effective epoch start substates, EpochChangeEvent; distinct = distinct call sequences"
-                    % ("40 + 40 sampled states" if q else "all states")}
+                    % ("the %d states of a greedy cover of all %d (result x round class x duration class x timestamp class) combinations "
+                       "+ 16 seeded states" % (n_cov, n_keys) if q else "all states")}
 
 
 PROPS = {
